@@ -1,3 +1,4 @@
+import Noodles.Props.C11Indexer
 import Noodles.Props.C11More
 import Noodles.Fasta.Model
 import Noodles.Fasta.Spec
